@@ -1,1 +1,57 @@
-fn main() {}
+//! simdb — C13 (edit histories) and C12 (schedules / query histories) on the real salsa database.
+
+mod c13;
+mod dbx;
+mod edits;
+mod project;
+
+use std::path::{Path, PathBuf};
+
+use simcore::harness_error;
+
+fn main() {
+    std::panic::set_hook(Box::new(|_| {}));
+    for v in ["CAIRO_DEBUG_SIERRA_GEN", "CAIRO_DEBUG_GENERATED_CODE", "PRINT_CASM_BYTECODE_OFFSETS", "MAX_STACK_TRACE_DEPTH"] {
+        // SAFETY: single-threaded at this point.
+        unsafe { std::env::remove_var(v) };
+    }
+    dbx::install_subscriber();
+    let args: Vec<String> = std::env::args().collect();
+    let cmd = args.get(1).map(|s| s.as_str()).unwrap_or("");
+    let mut tier = std::env::var("VERIF_TIER").unwrap_or_else(|_| "quick".into());
+    let mut workers = simcore::env_usize("VERIF_WORKERS", std::thread::available_parallelism().map(|n| n.get()).unwrap_or(4));
+    let mut budget_s = simcore::env_usize("VERIF_BUDGET_S", 1500) as u64;
+    let mut log = None;
+    let mut only = None;
+    let mut histories = None;
+    let mut quiet = false;
+    let mut positional = vec![];
+    let mut i = 2;
+    while i < args.len() {
+        match args[i].as_str() {
+            "--tier" => { tier = args[i + 1].clone(); i += 1; }
+            "--workers" => { workers = args[i + 1].parse().unwrap(); i += 1; }
+            "--budget-s" => { budget_s = args[i + 1].parse().unwrap(); i += 1; }
+            "--log" => { log = Some(PathBuf::from(&args[i + 1])); i += 1; }
+            "--only" => { only = Some(args[i + 1].clone()); i += 1; }
+            "--histories" => { histories = Some(args[i + 1].parse().unwrap()); i += 1; }
+            "--quiet" => quiet = true,
+            other => positional.push(other.to_string()),
+        }
+        i += 1;
+    }
+    let projects_dir = simcore::verif_root().join("workloads/projects");
+    let code = match cmd {
+        "c13" => c13::run(c13::Opts { tier, workers, budget_s, log, only, histories }, project::Project::load_all(&projects_dir)),
+        "replay" => {
+            let p = positional.first().unwrap_or_else(|| harness_error("replay <file>"));
+            let v: serde_json::Value = serde_json::from_str(&std::fs::read_to_string(p).unwrap_or_else(|e| harness_error(&format!("{e}")))).unwrap_or_else(|e| harness_error(&format!("{e}")));
+            match v["property"].as_str() {
+                Some("C13") => c13::replay(Path::new(p), quiet),
+                _ => harness_error("unknown replay kind"),
+            }
+        }
+        _ => harness_error("usage: simdb c13|c12|replay"),
+    };
+    std::process::exit(code);
+}
